@@ -1145,6 +1145,7 @@ WITNESSES = [
     ("concatenate-params", {"main.py": "from typing_extensions import Concatenate\n"
                                        "def c(t: tuple[Concatenate[int, ...]]) -> None:\n    bool_f: Field[bool]\n"}, [], "batch"),
     ("partial-indexed-assignment", {"main.py": "d = {}\nd[1] = [d.update({1: 1})]\n"}, [], "batch"),
+    ("typevar-self-value", {"main.py": "from typing import TypeVar, Generic, List\nS = TypeVar(\"S\", \"S\", U)\nA = List[C[S]]\n"}, [], "batch"),
     ("unpack-undefined", {"main.py": "from collections.abc import Callable\nfrom typing import Unpack\n"
                                      "type F = Callable[[Unpack[Undefined], int], int]\n"
                                      "def ff(a: float, b: int, c: int) -> int:\n    return 2\nbis: F = ff\nbis(1.0, 2, 3)\n"}, [], "batch"),
@@ -1158,6 +1159,7 @@ WITNESSES = [
     ("daemon-blocker-in-reprocess", "corpus/c20/daemon_blocker_in_reprocess.json", [], "daemon"),
     ("daemon-placeholder-snapshot", "corpus/c20/daemon_placeholder_snapshot.json", [], "daemon"),
     ("daemon-deleted-import-after-blocker", "corpus/c20/daemon_deleted_import.json", [], "daemon"),
+    ("daemon-partial-type-in-deps", "corpus/c20/daemon_partial_type_in_deps.json", [], "daemon"),
     # a function that has to be deferred twice: the daemon runs a single second pass after an edit
     ("daemon-single-second-pass", [{"main.py": "x: int = 1\n"}, {"main.py": gen.defer_chain(2)}], [], "daemon-compare"),
     # a module-level function `f`, then a method `f` overriding incompatibly: the daemon prints the subclass signature without `self`
